@@ -72,6 +72,9 @@ pub enum Op {
     IncStrong(u16),
     DecStrong(u16),
     DropLoose(u16),
+    /// apply `op` k times (high multiplicities, many Weak handles, large
+    /// counts, link tables that grow across several rehash boundaries)
+    Repeat { op: Box<Op>, k: u8 },
     /// non-mutating observations on everything accessible
     Probe,
 }
@@ -166,6 +169,7 @@ pub fn op_compact(op: &Op) -> String {
         Op::IncStrong(p) => format!("IncStrong({})", p),
         Op::DecStrong(p) => format!("DecStrong({})", p),
         Op::DropLoose(v) => format!("DropLoose({})", v),
+        Op::Repeat { op, k } => format!("{}x[{}]", k, op_compact(op)),
         Op::Probe => "Probe".into(),
     }
 }
